@@ -134,7 +134,9 @@ C09Trace(rec, s) ==
       left == IF ret.fk = "<eof>" THEN 0 ELSE 1 IN
   rec.pan \/
   /\ s.mode = "parse" \/ (Len(s.skipped) = 1 /\ s.cur.k \in {"<bad>", "<eof>"})
-  /\ LET f == FinalSt(ret) c == [s.cur EXCEPT !.d = FALSE] IN f = c \/ SplitAngle(c, f)   \* the call ended where the trace ended
+  /\ LET f == FinalSt(ret) c == [s.cur EXCEPT !.d = FALSE] IN            \* the call ended where the trace ended,
+       \/ f = c \/ SplitAngle(c, f)
+       \/ \E S \in s.snaps : S.c <= s.cur.c /\ [S EXCEPT !.d = FALSE] = f    \* or right after a (silent) look-ahead restore
   /\ ret.verr = ret.nerrs /\ ret.nerrs = s.nerr + left                 \* errors = recoveries' errors + trailing-token error
   /\ ret.nilerr => s.nrec = 0
 C09OK(rec, s) == C09Ret(rec) /\ C09Trace(rec, s)
